@@ -573,6 +573,19 @@ Section Settled.
 
   Lemma advance_admissible fixed (s : state K) t s' : step fixed s (AAdvance t) = Some s' -> trig s = [].
   Proof. cbn [step]. destruct (trig s); [auto|discriminate]. Qed.
+
+  Theorem heads_blocked_at_advance acts c0 t0 s t s' :
+    run true (init c0 t0) acts = Some s ->
+    step true s (AAdvance t) = Some s' ->
+    (match putq s with [] => True | r :: _ => r_val (k_do_put K (content s) (snd r)) = None end) /\
+    (if gblock
+     then match getq s with [] => True | r :: _ => r_val (k_do_get K (content s) (snd r)) = None end
+     else forall r, In r (getq s) -> r_val (k_do_get K (content s) (snd r)) = None).
+  Proof.
+    intros Hr Ha. apply advance_admissible in Ha.
+    destruct (heads_blocked_generic _ _ _ _ Hr Ha) as [Hp Hg]. split; [exact Hp|].
+    unfold get_settled, get_head_settled, get_all_settled in Hg. destruct gblock; exact Hg.
+  Qed.
 End Settled.
 
 (* ---------------------------------------------------------------------------------------------- *)
